@@ -15,6 +15,9 @@ TIMER = {'test': 'TestVerifTimer', 'comp': 'timer', 'quick': {'VERIF_N': 200, 'V
 ASND = {'test': 'TestVerifAssocSender', 'comp': 'as', 'pairs': True, 'quick': {'VERIF_N': 150, 'VERIF_OPS': 200},
         'thorough': {'VERIF_N': 600, 'VERIF_OPS': 300}, 'seeds': {'quick': 1, 'thorough': 8}}
 
+ARCV = {'test': 'TestVerifAssocReceiver', 'comp': 'ar', 'pairs': True, 'quick': {'VERIF_N': 60, 'VERIF_OPS': 150},
+        'thorough': {'VERIF_N': 400, 'VERIF_OPS': 250}, 'seeds': {'quick': 1, 'thorough': 8}}
+
 
 # graceful shutdown, direct drive: two established real associations, model Sd replayed line by line (C08)
 SDD = {'test': 'TestVerifShutdown', 'comp': 'sd', 'quick': {'VERIF_N': 400}, 'thorough': {'VERIF_N': 4000},
@@ -56,14 +59,17 @@ CODEC = {'test': 'TestVerifCodec', 'comp': 'codec', 'quick': {'VERIF_N': 1500}, 
          'seeds': {'quick': 1, 'thorough': 4}}
 
 PROPS = {
-    'C05': {'jobs': [RQ]},
-    'C16': {'jobs': [GENF, RQ, ASND]},
-    'C01': {'jobs': [REASM, ASND, E2E_T], 'assumptions': [
+    'C05': {'jobs': [RQ, ARCV]},
+    'C16': {'jobs': [GENF, RQ, ASND, ARCV]},
+    'C01': {'jobs': [REASM, ASND, ARCV, E2E_T], 'assumptions': [
         'sender half (Props/C01wire.lean): payload BYTES are not in the sender model (lengths and fragment identity only); that a chunk carries the matching slice of the written buffer is observed by the e2e content hashes',
-        'component theorem: the association hands each TSN to the stream at most once (C05) and chunks are the sender\'s fragments',
+        'receive-side system theorem (C01_receiver_prefix): chunks are the fragments of the peer\'s messages (universe of Reasm.Sender per stream, fewer than 2^31 TSNs in all), reliable streams only (no FORWARD-TSN, no reset in the run)',
         'fewer than 2^15 ordered messages of a stream outstanding (SSN half-space; known finding D15); fewer than 2^31 TSNs/MIDs outstanding']},
-    'C11': {'jobs': [REASM], 'assumptions': [
-        'sum of len(userData) over all chunks ever pushed < 2^63 (uint64 counter / int conversion in subtractNumBytes)']},
+    'C11': {'jobs': [REASM, ARCV], 'assumptions': [
+        'sum of len(userData) over all chunks ever pushed < 2^63 (uint64 counter / int conversion in subtractNumBytes)',
+        'association level: credit formula over the streams REGISTERED in the association table (deviation D13: unread bytes of a reset stream are not counted); '
+        'C11_bytes_bound / C11_credit_formula_bounded assume buffer + 40000 x (largest chunk) < 2^32 (bytesQueued is a uint32) and fewer than 2^63 user bytes in total',
+        'receive-half model Model/Receiver.lean is hand-written; its straight-line tests are translator-generated; tied by replaying every op of TestVerifAssocReceiver']},
     'C02': {'jobs': [E2E_T, ASND], 'rule': E2E_RULE},
     'C06': {'jobs': [E2E_PR, E2E_T, E2E_API, REASM, ASND], 'rule': E2E_RULE},
     'C07': {'jobs': [E2E_PR, ASND], 'rule': E2E_RULE},
@@ -94,16 +100,16 @@ PROPS = {
     ]},
     'C18': {'jobs': [E2E_API, E2E_SD], 'rule': E2E_RULE},
     'C09': {'jobs': [E2E_TD, E2E_SD, E2E_HS], 'rule': E2E_RULE},
-    'C19': {'jobs': [RTO, TIMER], 'assumptions': [
+    'C19': {'jobs': [RTO, TIMER, ARCV], 'assumptions': [
         'float64 arithmetic of rtoManager / calculateNextTimeout is proved over Rat; the Float instance is compared with the Go code bit for bit on sampled sequences',
         'timer automaton theorems assume fewer than 255 fired callbacks wait for the timer mutex at once (pending is a uint8; witness C19_pending_wrap_witness, known finding K19-pending-uint8)',
         'timeout() is modelled as atomic including the observer call; in Go the observer runs just after the timer mutex is released (with a zero interval consecutive reports can overtake each other)',
         'Go runtime timer semantics (Reset/Stop/AfterFunc) are the hand-written environment GoTimer; sampled under testing/synctest, callbacks delayed only through the harness gate',
         'retry-budget, Karn and start-uses-manager-RTO are syntactic facts about call sites (argument / guard text), not data-flow',
-        'association level (SACK immediacy, 200 ms bound per DATA packet, heartbeat round trip) is not part of this check yet',
+        'association level (Props/C19recv.lean): theorems about the receive-half model Model/Receiver.lean with the ack-timer automaton embedded; in the single-threaded model the timer callback runs at its deadline; the RTT estimator is not modelled',
     ]},
-    'C17': {'jobs': [PEND, HSD, E2E_HS, E2E_T], 'assumptions': [
-        'scheduler half only (pending_queue.go, scheduler factories); the negotiation half (chunk kinds, wrong-kind ABORT) is tied elsewhere',
+    'C17': {'jobs': [PEND, ARCV, HSD, E2E_HS, E2E_T], 'assumptions': [
+        'scheduler half (pending_queue.go, scheduler factories) plus the receive side of the negotiation half (wrong-kind chunk => protocol-violation ABORT, Props/C17recv.lean on Model/Receiver.lean); that each side SENDS the negotiated kind is C04/e2e',
         'WFQ theorems are over exact rationals; the Go code uses float64 (identical for power-of-two weights; X compares the Float instance bit for bit)',
         'a chunk pointer is never queued twice (fresh chunk per fragment), so chunkFinish[ptr] is modelled as a tag stored with the queue entry',
         'WFQ bound: statement = L_i/w_i + L_j/w_j; proved = that bound when no push falls between a peek and the pop of the chunk it selected '
@@ -116,7 +122,7 @@ PROPS = {
     'C13': {'jobs': [dict(CODEC, pviol_prefix=['C13-']), HSD, E2E_HS, E2E_T], 'assumptions': [
         'the CRC is uninterpreted in the theorems; the driver recomputes every checksum with its own bitwise CRC32c, '
         'which the harness compares with hash/crc32 on random strings']},
-    'C03': {'jobs': [dict(CODEC, pviol_prefix=['C03-']), ASND, E2E_PR], 'assumptions': [
-        'decoder part only (Props/C03dec.lean): panics are the explicit panic outcomes of the L0 model; '
-        'the harness runs every decode under recover() and a time box']},
+    'C03': {'jobs': [dict(CODEC, pviol_prefix=['C03-']), ASND, ARCV, E2E_PR], 'assumptions': [
+        'decoder part (Props/C03dec.lean) and receive half (Props/C03recv.lean): panics are the explicit panic outcomes of the L0 models; '
+        'the harnesses run every decode / every inbound packet under recover()']},
 }
